@@ -66,7 +66,7 @@ func fromMultihash(ctx context.Context, services coreiface.CoreAPI, hash cid.Cid
 	if options.Length != nil && *options.Length > -1 {
 		sorting.Sort(sortFn, entries, false)
 
-		entries = entrySlice(entries, -*options.Length)
+		entries = lastEntries(entries, *options.Length)
 	}
 
 	var heads []cid.Cid
@@ -147,6 +147,11 @@ func fromJSON(ctx context.Context, services coreiface.CoreAPI, jsonLog *iface.JS
 
 	sorting.Sort(sorting.Compare, entries, false)
 
+	// The fetcher may return more entries than requested, keep the most recent ones
+	if options.Length != nil && *options.Length > -1 {
+		entries = lastEntries(entries, *options.Length)
+	}
+
 	return &Snapshot{
 		ID:     jsonLog.ID,
 		Heads:  jsonLog.Heads,
@@ -207,6 +212,15 @@ func fromEntry(ctx context.Context, services coreiface.CoreAPI, sourceEntries []
 		ID:     result[len(result)-1].GetLogID(),
 		Values: result,
 	}, nil
+}
+
+// lastEntries returns the last n entries of a list, none if n is zero.
+func lastEntries(entries []iface.IPFSLogEntry, n int) []iface.IPFSLogEntry {
+	if n <= 0 {
+		return []iface.IPFSLogEntry{}
+	}
+
+	return entrySlice(entries, -n)
 }
 
 func entrySlice(entries []iface.IPFSLogEntry, index int) []iface.IPFSLogEntry {
